@@ -62,6 +62,10 @@ def name_pool(rng):
         pool.append(odd_string(rng))
     if rng.random() < 0.2:
         pool.append(b"")
+    if rng.random() < 0.3:
+        # a self-overlapping pattern and a name in which its only occurrence starts inside a failed partial match
+        u, x, k = word(rng, 1, 2), word(rng, 1, 1), rng.randrange(1, 3)
+        pool += [u * k + x, word(rng, 0, 1) + u * (k + 1) + x + word(rng, 0, 1)]
     return pool
 
 
